@@ -127,6 +127,8 @@ class Translator:
             return q
         if q in ('hdf5::H5Group', 'H5Group', 'hdf5::LocID', 'LocID'):
             return 'attrs'
+        if q in ('NDSize', 'NDSizeBase<ndsize_t>', 'NDSizeBase<unsigned long long>'):
+            return 'list (Z)'
         if q in self.records:
             return q
         m = re.match(r'boost::optional<(.*)>$', q)
@@ -181,7 +183,7 @@ class Translator:
         if k in ('CXXOperatorCallExpr', 'CXXMemberCallExpr', 'CallExpr'):
             cal = self.callee(node)
             if cal is not None:
-                if cal[0] == 'deref':
+                if cal[0] in ('deref', 'ndidx'):
                     return True
                 f = self.funcs.get(cal[1]) if cal[0] == 'fn' else None
                 if f and f['monadic']:
@@ -212,6 +214,10 @@ class Translator:
             obj = me['inner'][0]
             if nm == 'operator bool':
                 return ('optbool', obj)
+            so = self.strip(obj)
+            if so.get('kind') == 'DeclRefExpr' and len(inner) == 1 and \
+                    (so['referencedDecl']['name'] + '_' + nm) in self.ambient:
+                return ('ambientcall', so['referencedDecl']['name'] + '_' + nm)
             if nm == 'hasAttr' and len(inner) == 2:
                 return ('hasattr', obj, inner[1])
             if nm == 'getAttr' and len(inner) == 3:
@@ -238,6 +244,8 @@ class Translator:
                 return ('optnot', args[0])
             if nm == 'operator[]' and self.is_string(args[0]):
                 return ('stridx', args[0], args[1])
+            if nm == 'operator[]' and self.is_ndsize(args[0]):
+                return ('ndidx', args[0], args[1])
             if nm in ('operator==', 'operator!=') and len(args) == 2 and self.is_string(args[0]) and self.is_string(args[1]):
                 return ('streq', args[0], args[1], nm == 'operator!=')
             if nm == 'operator=':
@@ -373,6 +381,13 @@ class Translator:
             if cal[0] == 'optbool':
                 b, t = self.expr(cal[1], cx)
                 return b, '(opt_is_some %s)' % t
+            if cal[0] == 'ambientcall':
+                return [], cname(cal[1])
+            if cal[0] == 'ndidx':
+                b1, t1 = self.expr(cal[1], cx)
+                b2, t2 = self.expr(cal[2], cx)
+                v = cx.fresh('nd')
+                return b1 + b2 + [(v, '(nd_get %s %s)' % (t1, t2))], v
             if cal[0] == 'hasattr':
                 b1, t1 = self.expr(cal[1], cx)
                 b2, t2 = self.expr(cal[2], cx)
@@ -516,6 +531,10 @@ class Translator:
         self.globals[nm] = t
         return t
 
+    def is_ndsize(self, n):
+        q = self.strip(n).get('type', {}).get('qualType', '').replace('const ', '').replace('&', '').replace('nix::', '').strip()
+        return q in ('NDSize', 'NDSizeBase<ndsize_t>', 'NDSizeBase<unsigned long long>')
+
     def is_string(self, n):
         q = self.strip(n).get('type', {}).get('qualType', '').replace('const ', '').replace('&', '').strip()
         return q in ('std::string', 'std::basic_string<char>', 'string', 'basic_string<char>')
@@ -612,6 +631,10 @@ class Translator:
                     acc.add(t['referencedDecl']['name'])
                 if t.get('kind') == 'MemberExpr' and t.get('name') in self.ambient:
                     acc.add(t['name'])
+        if k == 'UnaryOperator' and n.get('opcode') in ('++', '--') or k == 'CompoundAssignOperator':
+            t = self.strip(n['inner'][0])
+            if t.get('kind') == 'DeclRefExpr':
+                acc.add(t['referencedDecl']['name'])
         if k == 'CXXMemberCallExpr':
             cal = self.callee(n)
             if cal and cal[0] == 'getattr':
@@ -787,6 +810,30 @@ class Translator:
             for v, st in reversed(cases):
                 out = 'if Z.eqb %s (%s)\nthen %s\nelse %s' % (c, v, self.stmts([st], cx, None), out)
             return self.emit_binds(b, out, cx)
+        if k == 'UnaryOperator' and s.get('opcode') in ('++', '--'):
+            tgt = self.strip(s['inner'][0])
+            if tgt.get('kind') != 'DeclRefExpr':
+                raise Unsupported('increment target')
+            nm = tgt['referencedDecl']['name']
+            f = 'u64_add' if s['opcode'] == '++' else 'u64_sub'
+            return 'let %s : %s := (%s %s 1) in\n%s' % (cname(nm), cx.types[nm], f, cname(nm), nxt())
+        if k == 'CompoundAssignOperator':
+            tgt = self.strip(s['inner'][0])
+            if tgt.get('kind') != 'DeclRefExpr':
+                raise Unsupported('compound assignment target')
+            nm = tgt['referencedDecl']['name']
+            b, t = self.expr(s['inner'][1], cx)
+            ty = cx.types[nm]
+            op = s.get('opcode')
+            if ty == 'bool' and op == '&=':
+                e = '(%s && %s)' % (cname(nm), t)
+            elif ty == 'bool' and op == '|=':
+                e = '(%s || %s)' % (cname(nm), t)
+            elif ty == 'Z' and op in ('+=', '-=', '*='):
+                e = '(%s %s %s)' % ({'+=': 'u64_add', '-=': 'u64_sub', '*=': 'u64_mul'}[op], cname(nm), t)
+            else:
+                raise Unsupported('compound assignment %s on %s' % (op, ty))
+            return self.emit_binds(b, 'let %s : %s := %s in\n%s' % (cname(nm), ty, e, nxt()), cx)
         if k == 'WhileStmt':
             cnd, body = s['inner'][0], s['inner'][1]
             if not cx.monadic:
@@ -832,7 +879,11 @@ class Translator:
                 hi = int(self.strip(cond['inner'][1])['value'])
                 assert inc['kind'] == 'UnaryOperator' and inc['opcode'] in ('++',)
             except Exception:
-                raise Unsupported('for loop that is not a literal-bounded counting loop')
+                # general counting loop: `for (T i = a; cond; ++i) body`  ==  `T i = a; while (cond) { body; ++i; }`
+                if init.get('kind') != 'DeclStmt' or inc.get('kind') != 'UnaryOperator':
+                    raise Unsupported('for loop shape')
+                wh = {'kind': 'WhileStmt', 'inner': [cond, {'kind': 'CompoundStmt', 'inner': [body, inc]}]}
+                return self.stmts([init, wh] + rest, cx, cont)
             if hi - lo > 16:
                 raise Unsupported('loop trip count')
             cx.types[var] = 'Z'
@@ -858,7 +909,7 @@ class Translator:
         return out
 
     # ---------------------------------------------------------------- functions
-    def function(self, decl, key, coqname, record=None, ambient=None):
+    def function(self, decl, key, coqname, record=None, ambient=None, skip_params=None):
         body = [c for c in decl.get('inner', []) if c.get('kind') == 'CompoundStmt']
         if not body:
             raise Unsupported('no body for ' + key)
@@ -868,6 +919,7 @@ class Translator:
         ps = []
         if record:
             ps.append('(this_ : %s)' % record)
+        params = [p for p in params if p['name'] not in (skip_params or ())]
         for p in params:
             ty = self.ctype(p['type']['qualType'])
             cx.types[p['name']] = ty
